@@ -51,6 +51,8 @@ type Op struct {
 type History struct {
 	Backend string `json:"backend"`
 	Ops     []*Op  `json:"ops"`
+	// used by C07 only: the two handles of the history are taken by two overlapping AppStorage calls
+	ConcurrentHandles bool `json:"concurrent_handles,omitempty"`
 }
 
 // unhex decodes a byte string of a history: hex digits, or "<hex>*<n>" = the hex unit repeated n times
